@@ -239,7 +239,7 @@ def layer2_for(prop):
             "instances": {n: last.get(n, "not run since the last setup") for n in names}}
 
 
-def finish(prop, tier, seed, res, t0, level, rule, assumptions, extra_cov=None, nontrivial=None):
+def finish(prop, tier, seed, res, t0, level, rule, assumptions, extra_cov=None, nontrivial=None, evidence_name=None):
     """Print KNOWN-FINDING / VIOLATION lines, write evidence, return exit code."""
     known = {k["id"]: k for k in load_known(prop)}
     for kid, cnt in sorted(res.known_hits.items()):
@@ -294,7 +294,9 @@ def finish(prop, tier, seed, res, t0, level, rule, assumptions, extra_cov=None, 
         "wall_s": round(time.time() - t0, 2), "violations": nviol,
     }
     os.makedirs(os.path.join(vlib.VERIF, "evidence"), exist_ok=True)
-    with open(os.path.join(vlib.VERIF, "evidence", f"{prop}.json"), "w") as fh:
+    # a --replay run re-executes one stored scenario: its record goes next to the evidence, not over it
+    with open(os.path.join(vlib.VERIF, "evidence", f"{evidence_name or prop}.json") if not evidence_name
+              else os.path.join(vlib.OUT, f"{evidence_name}.json"), "w") as fh:
         json.dump(evd, fh, indent=1)
     if not neg_ok:
         bad = res.extra.get("neg_not_rejected", [])
